@@ -39,6 +39,7 @@ import (
 	"io"
 	"os"
 	"path/filepath"
+	"sort"
 	"strconv"
 	"strings"
 	"sync"
@@ -137,6 +138,15 @@ var c17Roots = []c17Root{
 	{"top", "../..", "^1"},
 	{"top", "../../..", "^2"},
 	{"top", "@/../..", "^2"},
+	{"top", "missing", "top/missing"}, // roots that do not exist / are files / have odd bytes (the locator is lexical)
+	{"top", "missing/deeper/", "top/missing/deeper"},
+	{"top", "@/top/missing", "top/missing"},
+	{"top", "root/nm", "top/root/nm"},
+	{"top", "root/nm/below", "top/root/nm/below"},
+	{"top", "r:t", "top/r:t"},
+	{"top", "r\xc3\xa9\xff", "top/r\xc3\xa9\xff"},
+	{"top/root", "../missing/../root", "top/root"},
+	{"top", "r\x00t", "top/r\x00t"}, // a NUL byte in the root
 }
 
 var (
@@ -278,6 +288,19 @@ func c17Classify(content, rootpos string) string {
 		}
 	}
 	return "UNKNOWN-CONTENT:" + hx(content)
+}
+
+// c17ClassifyQuiet is c17Classify without the run counters (used from several goroutines)
+func c17ClassifyQuiet(content, rootpos string) string {
+	for i, f := range c17Files {
+		if content == "p := \""+f+"\"\n" {
+			if rootpos == "" || strings.HasPrefix(rootpos, "^") || f == rootpos || strings.HasPrefix(f, rootpos+"/") {
+				return "I" + strconv.Itoa(i)
+			}
+			return "O" + strconv.Itoa(i)
+		}
+	}
+	return "UNKNOWN-CONTENT"
 }
 
 func c17Resolve(il *util.FileImportLocator, path, rootpos string) string {
@@ -480,6 +503,44 @@ func c17Run(payload string) string {
 		}
 		return hx(filepath.Clean(a)) + " " + hx(filepath.Join(a, b)) + " " + r
 	}
+	if f[0] == "C" && len(f) == 8 {
+		check(os.Chdir(filepath.Join(c17Base, unhx(f[1]))))
+		rounds, _ := strconv.Atoi(f[7])
+		il := &util.FileImportLocator{Root: c17Subst(unhx(f[3]))}
+		paths := []string{c17Subst(unhx(f[6])), c17Subst(unhx(f[5]))} // outside first, inside second
+		classes := make([]map[string]bool, 2)
+		var wg sync.WaitGroup
+		for gi := 0; gi < 2; gi++ {
+			classes[gi] = map[string]bool{}
+			wg.Add(1)
+			go func(gi int) {
+				defer wg.Done()
+				for n := 0; n < rounds; n++ {
+					res, err := il.Resolve(paths[gi])
+					switch {
+					case err != nil && res != "":
+						classes[gi]["E+"] = true
+					case err != nil:
+						classes[gi]["E"] = true
+					default:
+						classes[gi][c17ClassifyQuiet(res, unhx(f[4]))] = true
+					}
+				}
+			}(gi)
+		}
+		wg.Wait()
+		c17TakeEvents()
+		var out []string
+		for gi := 0; gi < 2; gi++ {
+			var cs []string
+			for c := range classes[gi] {
+				cs = append(cs, c)
+			}
+			sort.Strings(cs)
+			out = append(out, "?="+strings.Join(cs, "+"))
+		}
+		return strings.Join(out, ",")
+	}
 	if f[0] == "J" && len(f) == 7 {
 		check(os.Chdir(filepath.Join(c17Base, unhx(f[1]))))
 		return c17ImportNamed(c17Subst(unhx(f[5])), &util.FileImportLocator{Root: c17Subst(unhx(f[3]))}, unhx(f[6]), unhx(f[4]))
@@ -569,13 +630,13 @@ func init() {
 		return rcaseA(kind, r, pre, hasPre, depth, alpha)
 	}
 	register("C17", &Prop{
-		Timeout:          20 * time.Second,
+		Timeout:          90 * time.Second, // generous: a batched line / 2x20000 concurrent rounds under a heavily loaded machine
 		NoRestartOnPanic: true,
 		Setup:            c17Setup,
 		Gen: func(g *Gen) {
-			maxLen, nRandom, pLen, impLen, nRoots := 5, 4000, 4, 3, 1000
+			maxLen, nRandom, pLen, impLen, nRoots, nConc := 5, 4000, 4, 3, 300, 20000
 			if g.Thorough() {
-				maxLen, nRandom, pLen, impLen, nRoots = 6, 100000, 4, 4, 5000
+				maxLen, nRandom, pLen, impLen, nRoots, nConc = 6, 100000, 4, 4, 3000, 200000
 			}
 			// directed cases first: the suite's own paths, classic escapes
 			top := c17Roots[0]
@@ -824,47 +885,91 @@ func init() {
 					pre6(nil)
 				}
 			}
-			// random root spellings; the position each denotes is asked from the kernel (chdir + getcwd),
-			// not computed with path/filepath; every path of <= 3 elements for each
-			rootAlpha := []string{"root", "sub", "..", ".", "", "rootX", "a.b", "top", "root", "..", "r t", "r.t", "..r", " r"}
+			// random root spellings, built from a directory of the tree (or a missing one) and the working directory:
+			// the relative or absolute way there, with lexical detours (x/.., ./, doubled and trailing separators)
+			dirs := []string{"", "top", "top/root", "top/root/sub", "top/root/a.b", "top/rootX", "abs", "top/r t", "top/..r", "top/root/sub/sub",
+				"top/missing", "top/root/nm", "^1", "^2"}
 			cwds := []string{"top", "top/root", "top/root/sub", ""}
+			detourNames := []string{"x", "root", "sub", "..x", "a b", "missing", "nm"}
+			splitPos := func(p string) []string {
+				if p == "" {
+					return nil
+				}
+				return strings.Split(p, "/")
+			}
 			for i := 0; i < nRoots; i++ {
 				cwd := g.R.Pick(cwds)
+				dir := g.R.Pick(dirs)
 				var segs []string
-				for k := 1 + g.R.Intn(5); k > 0; k-- {
-					segs = append(segs, g.R.Pick(rootAlpha))
-				}
-				root := strings.Join(segs, "/")
-				if g.R.Intn(4) == 0 {
-					root = "@/" + root
-				}
-				if os.Chdir(filepath.Join(c17Base, cwd)) != nil || os.Chdir(c17Subst(root)) != nil {
-					g.Count("random root: not a directory (skipped)")
-					continue
-				}
-				wd, err := os.Getwd()
-				pos := strings.TrimPrefix(strings.TrimPrefix(wd, c17Base), "/")
+				abs := g.R.Intn(3) == 0
 				switch {
-				case err != nil:
-					continue
-				case wd == c17Par1:
-					pos = "^1"
-					g.Count("random root: parent of the tree")
-				case wd == c17Par2:
-					pos = "^2"
-					g.Count("random root: grandparent of the tree")
-				case wd != c17Base && !strings.HasPrefix(wd, c17Base+"/"):
-					g.Count("random root: more than two levels above the tree (skipped)")
-					continue
+				case dir == "^1" || dir == "^2":
+					n := len(splitPos(cwd)) + 1
+					if dir == "^2" {
+						n++
+					}
+					if abs {
+						segs = []string{"@"}
+						for k := 0; k < n-len(splitPos(cwd)); k++ {
+							segs = append(segs, "..")
+						}
+					} else {
+						for k := 0; k < n; k++ {
+							segs = append(segs, "..")
+						}
+					}
+				case abs:
+					segs = append([]string{"@"}, splitPos(dir)...)
+				default:
+					c, d := splitPos(cwd), splitPos(dir)
+					k := 0
+					for k < len(c) && k < len(d) && c[k] == d[k] {
+						k++
+					}
+					for j := k; j < len(c); j++ {
+						segs = append(segs, "..")
+					}
+					segs = append(segs, d[k:]...)
+					if len(segs) == 0 {
+						segs = []string{"."}
+					}
 				}
-				r := c17Root{cwd, root, pos}
+				// detours (never in front of a leading ".." block of a relative spelling: x/.. needs something to cancel against)
+				var out []string
+				for j, sg := range segs {
+					out = append(out, sg)
+					if sg != ".." && sg != "@" || j == len(segs)-1 && sg != ".." {
+						switch g.R.Intn(6) {
+						case 0:
+							out = append(out, g.R.Pick(detourNames), "..")
+						case 1:
+							out = append(out, ".")
+						case 2:
+							out = append(out, "")
+						}
+					}
+				}
+				root := strings.Join(out, "/")
+				if g.R.Intn(5) == 0 {
+					root += "/"
+				}
+				if abs && root == "@" {
+					root = "@/"
+				}
+				r := c17Root{cwd, root, dir}
+				g.Count("resolve random-root lines")
 				for L := 0; L <= 2; L++ {
-					g.Count("resolve random-root lines")
 					g.Emit(rcase("R", r, "", false, L))
 				}
 				for _, a := range c17Alphabet {
-					g.Count("resolve random-root lines")
 					g.Emit(rcase("R", r, a, true, 2))
+				}
+			}
+			// concurrent use of ONE locator: one goroutine resolves a path outside the root, another one a path inside
+			for _, r := range []c17Root{c17Roots[0], c17Roots[1], c17Roots[6], c17Roots[13]} {
+				for _, pp := range [][2]string{{"nm", "../nm"}, {"sub/nm", "../rootX/nm"}, {"a.b/nm", "../../nm"}, {"nm", "@/abs/nm"}} {
+					g.Count("concurrent lines")
+					g.Emit(strings.Join([]string{k("C"), hx(r.cwd), files, hx(r.root), hx(r.pos), hx(pp[0]), hx(pp[1]), strconv.Itoa(nConc)}, " "))
 				}
 			}
 			// random longer paths (alphabet elements and arbitrary byte elements)
